@@ -20,12 +20,17 @@ def run(ctx):
     db, prov = ctx.db, ctx.prov
     argument_triple(ctx)
     alias_triple(ctx)
+    fresh_index(ctx)
     export_triple(ctx)
     embed_once(ctx)
     name_section(ctx)
     fns = [f for f in db.fns.values() if f.crate in ("wac_graph", "wac_types") and not f.from_expansion]
     n = tables.check_enum_tables(ctx, "R02.7", fns, only=lambda e1, e2: e1.endswith("ItemKind") and ("ComponentExportKind" in e2 or "ComponentTypeRef" in e2))
     ctx.ob("R02.7", "count", n >= 18, "ItemKind -> export-kind / type-ref table rows checked: %d" % n, nontrivial=False)
+    # the argument edges are what the encoder reads: unset must remove the edge of the argument it clears (C06's R06.9)
+    import c06
+    from c01 import ctx_alias
+    c06.check_edge_selection(ctx_alias(ctx, "R02.8"), [f for f in db.fns.values() if f.crate == "wac_graph"])
 
 
 def argument_triple(ctx):
@@ -90,6 +95,36 @@ def alias_triple(ctx):
     q = [t for t in f.calls() if t.path == GR + "CompositionGraph::get_alias_source"]
     ok = bool(q) and all(any(i == 3 for fid, i in prov.slice(f, t.args[1]).params) for t in q)
     ctx.ob("R02.2", "alias-of-this-node", ok, "the alias source is queried for the node being encoded" if ok else "get_alias_source is not asked about the node being encoded", site=f.span)
+
+
+def fresh_index(ctx):
+    """R02.2/R02.1 `own-emission`: the index the encoder records for an alias node / an instantiation node is the
+    result of *that node's own* emission — every normal return of `alias` / `instantiation` passes through its
+    `ComponentBuilder::{alias,instantiate}` call and returns that call's result.  (An index taken from a cache keyed
+    by anything coarser than the node — e.g. by type — makes the alias of one instance's export stand for another's.)"""
+    from cfg import CFG
+    db, prov = ctx.db, ctx.prov
+    for rule, fname, emit in (("R02.2", "alias", "ComponentBuilder::alias"), ("R02.1", "instantiation", "ComponentBuilder::instantiate")):
+        f = db.fn(ENCODER + fname)
+        ctx.touch(f)
+        cfg = CFG(f)
+        em = [t for t in f.calls() if (t.path or "").endswith(emit)]
+        ctx.ob(rule, "own-emission-anchor|" + fname, len(em) == 1, "%s emission sites in %s: %d" % (emit, fname, len(em)), nontrivial=False)
+        if len(em) != 1:
+            continue
+        rets = [b.idx for b in f.blocks if b.term.k == "return" and not b.cleanup]
+        ok_path = bool(rets) and all(cfg.must_pass([em[0].bb], src=0, dsts={r}) for r in rets)
+        sl = prov.slice(f, 0)
+        ok_val = any(c is em[0] for _, c in sl.calls)
+        other = sorted(n for n in sl.field_names() if n.endswith("_indexes") or n in ("instances", "packages", "resources"))
+        # maps may be *read* to build the emission's operands; what must not happen is a return value that bypasses the emission
+        ok = ok_path and ok_val
+        ctx.ob(rule, "own-emission|" + fname, ok,
+               "every return of %s yields the index produced by its own %s call" % (fname, emit) if ok else
+               "%s can return without emitting (%s): the recorded index then belongs to some other item%s" % (
+                   fname, "a return path bypasses the emission" if not ok_path else "the returned value is not the emission's result",
+                   " (index maps read on the way: %s)" % ", ".join(other) if other else ""),
+               site=f.span)
 
 
 def export_triple(ctx):
